@@ -17,7 +17,9 @@ import (
 
 var store = gen.Stores()[1].ToImpl()
 
-func ent(t, id string) types.EntityUID { return types.NewEntityUID(types.EntityType(t), types.String(id)) }
+func ent(t, id string) types.EntityUID {
+	return types.NewEntityUID(types.EntityType(t), types.String(id))
+}
 func rec(kv ...any) types.Record {
 	m := types.RecordMap{}
 	for i := 0; i < len(kv); i += 2 {
@@ -26,7 +28,7 @@ func rec(kv ...any) types.Record {
 	return types.NewRecord(m)
 }
 func set(v ...types.Value) types.Set { return types.NewSet(v...) }
-func variable(n string) types.Value { return eval.Variable(types.String(n)) }
+func variable(n string) types.Value  { return eval.Variable(types.String(n)) }
 
 var ignore = batch.Ignore()
 
@@ -202,7 +204,9 @@ func checkPolicy(t *core.T, name string, mk func() *xast.Policy, forbid bool, ex
 		}
 		orig := mk()
 		pristine := mk()
-		in := func(c string) string { return fmt.Sprintf("%s: %s ; partial env %s ; completion {%s}", name, exprStr(), pe.name, c) }
+		in := func(c string) string {
+			return fmt.Sprintf("%s: %s ; partial env %s ; completion {%s}", name, exprStr(), pe.name, c)
+		}
 		var residual *xast.Policy
 		var keep bool
 		if t.Protect("partial:"+name, in(""), func() {
@@ -435,8 +439,12 @@ func scopeFamily() *core.Family {
 	conds := []func() (xast.Node, string){
 		func() (xast.Node, string) { return xast.True(), "true" },
 		func() (xast.Node, string) { return xast.Context().Access("a").Equal(xast.Long(1)), "context.a == 1" },
-		func() (xast.Node, string) { return xast.Principal().In(xast.EntityUID("G", "g2")), "principal in G::g2" },
-		func() (xast.Node, string) { return xast.Resource().Access("a").Equal(xast.String("group")), "resource.a == \"group\"" },
+		func() (xast.Node, string) {
+			return xast.Principal().In(xast.EntityUID("G", "g2")), "principal in G::g2"
+		},
+		func() (xast.Node, string) {
+			return xast.Resource().Access("a").Equal(xast.String("group")), "resource.a == \"group\""
+		},
 		func() (xast.Node, string) { return xast.Context().Access("missing"), "context.missing" },
 	}
 	n := len(scopes) * len(scopes) * len(conds) * 2
